@@ -3,7 +3,7 @@
 // scripted SCION NTP peer on loopback (one UDP socket per offered path), with
 // crypto/rand.Reader replaced by a scripted tape and a recording filter per
 // client.
-package main
+package c15lib
 
 import (
 	"fmt"
@@ -65,7 +65,7 @@ func genClients(r *lib.Rng, h *histIn, small bool) int {
 		nc = 9 + r.Intn(maxClients-8) // many clients
 	}
 	allEn := r.Intn(3) != 0
-	ntsHist := r.Intn(6) == 0 && thePeer.ports6 != nil
+	ntsHist := r.Intn(6) == 0
 	for i := 0; i < nc; i++ {
 		h.cfg = append(h.cfg, clientCfg{
 			en:   allEn || r.Intn(4) != 0,
